@@ -211,6 +211,19 @@ claim(
     "DESIGN.md section 4, C09",
 )
 
+claim(
+    "C19",
+    "structural / CFG rules on the table generators (index range, one append per code, clamp and rounding provenance); caller-type taint in fp_math "
+    "(growing multiplications only on widened operands); table agreement of the exponential's barrel stages and constants with gemmlowp",
+    "Decides clauses a-c of DESIGN.md 4/C19: each 8-bit table loop covers exactly the 256 codes of its input type with one append per code; the stored "
+    "value is rounded by round_away_zero or produced by the integer helpers and clamped to the same loop's quantised range; in fp_math no growing "
+    "multiply / shift is applied to a caller-typed operand before widening (F18 found and fixed) and never inside the widening call; the exponential has "
+    "the seven gemmlowp stages and constants; rounding divide and doubling high multiply have the reference shape. Does NOT decide table values or "
+    "bit-exact equality with gemmlowp.",
+    "Trusted: gemmlowp's barrel-shifter table and Taylor constants (frozen from fixedpoint.h); float-domain helpers exempted by name with a reason.",
+    "DESIGN.md section 4, C19",
+)
+
 
 def build():
     checks = []
